@@ -33,6 +33,9 @@ OpSlice(v, a1, a2)     == [k |-> "slice", v |-> v, a1 |-> a1, a2 |-> a2]
 OpFromTA(t, v)         == [k |-> "fromta", t |-> t, v |-> v]
 OpFromList(t, vals)    == [k |-> "fromlist", t |-> t, vals |-> vals]
 OpDvGet(d, t, a1, le)  == [k |-> "dvget", d |-> d, t |-> t, a1 |-> a1, le |-> le]
+OpALoad(v, a1)         == [k |-> "aload", v |-> v, a1 |-> a1]
+OpAStore(v, a1, x)     == [k |-> "astore", v |-> v, a1 |-> a1, val |-> x]
+OpAAdd(v, a1, x)       == [k |-> "aadd", v |-> v, a1 |-> a1, val |-> x]
 OpDvSet(d, t, a1, x, le) == [k |-> "dvset", d |-> d, t |-> t, a1 |-> a1, val |-> x, le |-> le]
 
 \* the argument at `pos` is an object whose valueOf resizes buffer b to n bytes / detaches it before returning the number
@@ -98,6 +101,9 @@ LeafG == PathG
   \cup {OpSub(v, x, y) : v \in 1..3, x \in {U, N(1), N(-1), N(100)}, y \in {U, N(2), N(-1)}}
   \cup {OpSlice(v, x, y) : v \in 1..3, x \in {U, N(1), N(-2)}, y \in {U, N(2), N(100)}}
   \cup {OpFromTA(t, v) : t \in {"Uint8", "Int16", "Uint32"}, v \in 1..3}
+  \cup {OpALoad(v, x) : v \in 1..3, x \in {U, N(0), N(1), N(2), N(7), N(8), N(-1), FinW(0, "p32"), FinW(0, "p53")}}
+  \cup {OpAStore(v, x, N(-2)) : v \in 1..3, x \in {N(0), N(1), N(3), N(8)}}
+  \cup {OpAAdd(v, x, N(200)) : v \in 1..3, x \in {N(0), N(1), N(3), N(8)}}
   \cup {OpNewView(b, t, x, y) : b \in 1..2, t \in {"Uint8", "Int16"}, x \in {U, N(2), N(6)}, y \in {U, N(1), N(3)}}
   \cup {OpNewDv(b, x, y) : b \in 1..2, x \in {U, N(3), N(9)}, y \in {U, N(2), N(6)}}
   \cup {OpDvGet(d, t, x, le) : d \in 1..2, t \in {"Int8", "Uint16", "Int32"}, x \in {U, N(0), N(1), N(3), N(5), N(7), N(8), N(-1)}, le \in BOOLEAN}
@@ -137,6 +143,10 @@ LeafE == PathE
   \cup EvAll({OpNewView(1, t, x, y) : t \in {"Uint8", "Int16"}, x \in {N(0), N(2), N(3)}, y \in {N(1), N(3)}}, "len")
   \cup EvAll({OpNewDv(1, x, y) : x \in {N(0), N(3), N(6)}, y \in {U, N(2), N(5)}}, "off")
   \cup EvAll({OpNewDv(1, x, y) : x \in {N(0), N(3), N(-1)}, y \in {N(2), N(5)}}, "len")
+  \cup EvAll({OpALoad(v, x) : v \in 1..3, x \in {N(0), N(1), N(2)}}, "a1")
+  \cup EvAll({OpAStore(v, x, N(-2)) : v \in 1..3, x \in {N(0), N(1), N(2)}}, "a1")
+  \cup EvAll({OpAStore(v, x, N(-3)) : v \in 1..3, x \in {N(0), N(1), N(2)}}, "val")
+  \cup EvAll({OpAAdd(v, x, N(77)) : v \in 1..3, x \in {N(0), N(1), N(2)}}, "val")
   \cup EvAll({OpBSlice(1, x, y) : x \in {N(0), N(2)}, y \in {U, N(6)}}, "a1")
   \cup EvAll({OpBSlice(1, N(1), y) : y \in {N(6), N(100)}}, "a2")
 
@@ -165,6 +175,9 @@ LeafC == PathC
   \cup {OpFromList(IntTypeSeq[v], <<x, N(1)>>) : v \in 1..7, x \in AllVals}
   \cup {OpSetArr(v, <<N(3), x>>, N(0)) : v \in 1..7, x \in AllVals}
   \cup {OpDvSet(1, t, N(0), x, le) : t \in DvTypes, x \in AllVals, le \in BOOLEAN}
+  \cup {OpAStore(v, N(1), x) : v \in 1..7, x \in AllVals}
+  \cup {OpAAdd(v, N(0), x) : v \in {1, 2, 4, 5, 6, 7}, x \in IntVals \cup FracVals}
+  \cup {OpALoad(v, N(1)) : v \in 1..14}
   \cup {OpFromTA(IntTypeSeq[v], w) : v \in 1..7, w \in 8..14}
   \cup {OpSetTA(v, w, N(0)) : v \in 1..7, w \in {8, 9, 10}} \cup {OpSetTA(v, w, N(0)) : v \in {1, 2, 3}, w \in 11..14}
   \cup {OpSlice(v, N(1), N(-1)) : v \in 8..14}
@@ -251,6 +264,9 @@ LeafR ==
                                       \cup {K(OpBSlice(1, N(1), N(7)))}, n \in {2, 7, 12, 20}}
   \cup {EvRJ(OpSetArr(v, <<N(9), N(-9)>>, N(1)), 2, 1, n) : v \in 1..5, n \in {2, 7, 12}}
   \cup {EvD(OpFill(v, N(-6), N(0), U), "val", 1) : v \in 1..5}
+  \cup {OpALoad(v, N(x)) : v \in 1..5, x \in {0, 1, 3}} \cup {OpAStore(v, N(x), N(-7)) : v \in 1..5, x \in {0, 1, 3}}
+  \cup {OpAAdd(v, N(x), N(255)) : v \in 1..5, x \in {0, 1, 3}}
+  \cup {EvR(OpAStore(v, N(1), N(5)), "val", 1, n) : v \in 1..5, n \in {2, 8, 12}}
 
 \* C15_SETUP=<id> in the environment restricts a catalogue to one set-up (one TLC process per set-up)
 Sel(S) == IF "C15_SETUP" \in DOMAIN IOEnv /\ IOEnv.C15_SETUP # "" THEN {su \in S : su.id = IOEnv.C15_SETUP} ELSE S
